@@ -287,7 +287,9 @@ func (ex *Exec) call(fr *Frame, st *State, instr ssa.Value, com *ssa.CallCommon,
 	inl := (c != nil && c.Inline) || inlineLeaves[name] || (fn.Parent() != nil) || fn.Synthetic != ""
 	if inl && len(fn.Blocks) > 0 {
 		ex.inlined[name] = true
+		ex.callers = append(ex.callers, fr)
 		outs := ex.run(fn, args, fv.Fn.Bindings, st, false, nil)
+		ex.callers = ex.callers[:len(ex.callers)-1]
 		return outs
 	}
 	if fn.Pkg != nil && ex.prog.isRepoPkg(fn.Pkg.Pkg.Path()) {
